@@ -145,8 +145,9 @@ class Latency:
         at regular intervals to measure and track latency statistics.
         """
         if self._ping_thread_instance is None or not self._ping_thread_instance.is_alive():
-            self._stop_event.clear()
-            self._ping_thread_instance = Thread(target=self._ping_thread)
+            # Every ping thread has its own stop event, stop() does not wait for the thread
+            self._stop_event = Event()
+            self._ping_thread_instance = Thread(target=self._ping_thread, args=(self._stop_event,))
             self._ping_thread_instance.start()
 
     def stop(self):
@@ -156,12 +157,12 @@ class Latency:
         This method stops the background thread and ceases sending further
         ping requests, halting latency measurement.
         """
+        # Do not join the thread: stop() is called from the disconnected callback, which may run in
+        # the ping thread itself or in a thread that holds the send lock the ping thread is waiting for
         self._stop_event.set()
-        if self._ping_thread_instance is not None:
-            self._ping_thread_instance.join()
-            self._ping_thread_instance = None
+        self._ping_thread_instance = None
 
-    def _ping_thread(self, interval: float = 0.1) -> None:
+    def _ping_thread(self, stop_event, interval: float = 0.1) -> None:
         """
         Background thread method that sends a ping to the Crazyflie at regular intervals.
 
@@ -171,7 +172,7 @@ class Latency:
         Args:
             interval (float): The time (in seconds) to wait between ping requests. Default is 0.1 seconds.
         """
-        while not self._stop_event.is_set():
+        while not stop_event.is_set():
             self.ping()
             time.sleep(interval)
 
